@@ -99,8 +99,10 @@ def run_one(dst, full_name, flags, timeout, playback=False):
     elif r["result"] == "FAILURE":
         r["output"] = "\n".join(f"{c['check']}: {c['description']} @ {c['location']}" for c in r["failed_checks"])
     if playback:
-        m = re.search(r"```\n(#\[test\].*?)```", out, re.S)
-        r["playback_test"] = m.group(1) if m else None
+        tests = re.findall(r"```\n(.*?)```", out, re.S)
+        pick = [t for t in tests if "Check for `assertion`" in t or "Check for `arithmetic_overflow`" in t or "panic" in t.split("#[test]")[0]]
+        pick = pick or [t for t in tests if "Check for `cover`" not in t]
+        r["playback_test"] = ("#[test]" + pick[0].split("#[test]", 1)[1]) if pick and "#[test]" in pick[0] else None
     return r
 
 
